@@ -3,10 +3,12 @@ package props
 import (
 	"bytes"
 	"fmt"
+	"io"
 	"os"
 	"path/filepath"
 	"testing"
 
+	lz4 "github.com/pierrec/lz4/v4"
 	"pgregory.net/rapid"
 
 	"verifharness/gen"
@@ -182,4 +184,120 @@ func TestC16(t *testing.T) {
 	rec.SetRule(c16Rule)
 	rec.Require("nontrivial", "blocks/two-consecutive->64KiB", "match-spans/>=8-blocks", "match-spans/2..7-blocks", "offset/65535", "raw-blocks-present", "content/>128KiB(window-trim-path)", "reader/writeto")
 	checkProp(t, "C16", "C16/dependent", pick(40000, 800000), drawC16, runC16)
+}
+
+// periodicSink checks, on the fly, that what it receives is pattern repeated (content of the huge frame below).
+type periodicSink struct {
+	pattern []byte
+	n       uint64
+	bad     int64 // offset of the first wrong byte, -1 if none
+}
+
+func (p *periodicSink) Write(b []byte) (int, error) {
+	k := int(p.n % uint64(len(p.pattern)))
+	for i := 0; i < len(b); {
+		m := len(p.pattern) - k
+		if m > len(b)-i {
+			m = len(b) - i
+		}
+		if p.bad < 0 && !bytes.Equal(b[i:i+m], p.pattern[k:k+m]) {
+			p.bad = int64(p.n) + int64(i) + int64(firstDiff(b[i:i+m], p.pattern[k:k+m]))
+		}
+		i += m
+		k = 0
+	}
+	p.n += uint64(len(b))
+	return len(b), nil
+}
+
+// TestC16Huge (thorough only): a dependent-block frame of more than 4 GiB (1024 full 4 MiB blocks and a short one), every
+// block a single match at offset 65535 into the previous block: whatever the Reader counts in 32 bits wraps on a block boundary.
+func TestC16Huge(t *testing.T) {
+	rec := stat.For("C16")
+	rec.SetRule(c16Rule)
+	if !thorough() || shard != 0 {
+		return
+	}
+	const bs = 4 << 20
+	pattern := make([]byte, 65535)
+	gen.Fill(pattern, 99)
+	at := func(pos uint64, n int) []byte { // content bytes [pos, pos+n)
+		out := make([]byte, n)
+		for i := range out {
+			out[i] = pattern[(pos+uint64(i))%65535]
+		}
+		return out
+	}
+	putLen := func(b []byte, n int) []byte {
+		for ; n >= 255; n -= 255 {
+			b = append(b, 255)
+		}
+		return append(b, byte(n))
+	}
+	block := func(pos uint64, size int, lit []byte) []byte {
+		// [lit][match offset 65535, length size-len(lit)-5][5 final literals]
+		var b []byte
+		ml := size - len(lit) - 5
+		tok := byte(0x0F)
+		if len(lit) >= 15 {
+			tok |= 0xF0
+		} else {
+			tok |= byte(len(lit)) << 4
+		}
+		b = append(b, tok)
+		if len(lit) >= 15 {
+			b = putLen(b, len(lit)-15)
+		}
+		b = append(b, lit...)
+		b = append(b, 0xFF, 0xFF)
+		b = putLen(b, ml-4-15)
+		b = append(b, 0x50)
+		return append(b, at(pos+uint64(size)-5, 5)...)
+	}
+	var z []byte
+	z = append(z, 0x04, 0x22, 0x4D, 0x18)
+	desc := []byte{0x40 | 0x04, 0x70} // version 01, dependent blocks, content checksum; 4 MiB
+	z = append(z, desc...)
+	z = append(z, byte(ref.XXH32(desc, 0)>>8))
+	var hash ref.XXH32Stream
+	var pos uint64
+	add := func(blk []byte, size int) {
+		z = append(z, byte(len(blk)), byte(len(blk)>>8), byte(len(blk)>>16), byte(len(blk)>>24))
+		z = append(z, blk...)
+		for left := size; left > 0; {
+			n := 1 << 20
+			if n > left {
+				n = left
+			}
+			hash.WriteFast(at(pos+uint64(size-left), n))
+			left -= n
+		}
+		pos += uint64(size)
+	}
+	add(block(0, bs, pattern), bs)
+	for i := 1; i < 1024; i++ {
+		add(block(pos, bs, nil), bs)
+	}
+	add(block(pos, 105, nil), 105)
+	z = append(z, 0, 0, 0, 0)
+	sum := hash.Sum32()
+	z = append(z, byte(sum), byte(sum>>8), byte(sum>>16), byte(sum>>24))
+	for _, rc := range []rcfg{{Conc: 1, WriteTo: true}, {Conc: 4, Sizes: []int{1 << 20}}} {
+		rec.Eval()
+		sink := &periodicSink{pattern: pattern, bad: -1}
+		r := lz4.NewReader(bytes.NewReader(z))
+		_ = r.Apply(lz4.ConcurrencyOption(rc.Conc))
+		var err error
+		if rc.WriteTo {
+			_, err = r.WriteTo(sink)
+		} else {
+			_, err = io.CopyBuffer(struct{ io.Writer }{sink}, struct{ io.Reader }{r}, make([]byte, rc.Sizes[0]))
+		}
+		if err != nil || sink.n != pos || sink.bad >= 0 {
+			f := stat.Failf("C16/huge-dependent-frame", "frame of %d bytes, %d content bytes (1025 dependent blocks, offset 65535), reader %+v: err=%v, %d bytes delivered, first wrong byte at %d", len(z), pos, rc, err, sink.n, sink.bad)
+			judge(t, "C16", "C16/huge", rc, f)
+		}
+		rec.NonTrivial(stat.FP("huge", fmt.Sprint(rc)))
+		rec.Class("content/>4GiB")
+	}
 }
